@@ -151,6 +151,13 @@ def shape_obligations(e, n, tier, group=None):
             e.not_encoded("spline[n=%d,path#%d]" % (n, pidx), "shape obligations",
                           "unexpected path shape (panic=%r, decisions=%r)" % (p.panic, p.decisions), FUNCS)
             continue
+        if p.nonzero:
+            # the exact-arithmetic meaning of a path is only defined if it never divides by zero
+            from props.c04 import make_replay as c04_replay
+            e.prove_cases("spline[n=%d,path#%d]:divisors-nonzero" % (n, pidx),
+                          "on this path no divisor of the construction is zero for strictly increasing abscissae (each divisor under the "
+                          "path condition and the quotients defined before it)", pre + list(p.conds), sl.divisor_cases(p), dom_name="real",
+                          functions=FUNCS, witness_terms=wt, role="spline-division-by-zero", replay=c04_replay(e, n, xs, ys), prefer=nice)
         base = pre + list(p.conds) + list(p.side)
         preds = [(ys[k] - ys[k - 1]) * (ys[k + 1] - ys[k]) <= 0 for k in range(1, n - 1)]
         # Which data cases ("adjacent secants differ in sign or one is zero" at each interior knot) this path serves is asked of
